@@ -980,6 +980,11 @@ impl Exec {
                 use ckb_db_schema::{COLUMN_BLOCK_HEADER, COLUMN_BLOCK_UNCLE, COLUMN_BLOCK_PROPOSAL_IDS, COLUMN_BLOCK_EXT};
                 eprintln!("[snap] block {b}: raw header {} uncle {} proposals {} ext {} | via accessor header {}", s.get(COLUMN_BLOCK_HEADER, h.as_slice()).is_some(), s.get(COLUMN_BLOCK_UNCLE, h.as_slice()).is_some(), s.get(COLUMN_BLOCK_PROPOSAL_IDS, h.as_slice()).is_some(), s.get(COLUMN_BLOCK_EXT, h.as_slice()).is_some(), s.get_block_header(&h).is_some());
             }
+            if std::env::var_os("SIM_TRACE_SNAP").is_some() {
+                if let Some(x) = s.get_block(&h) {
+                    eprintln!("[snap] block {b}: get_block -> txs {} uncles {} proposals {} extension {:?}", x.transactions().len(), x.uncles().hashes().len(), x.data().proposals().len(), x.extension().map(|e| e.len()));
+                }
+            }
             let s2 = Arc::clone(s);
             let h2 = h.clone();
             let r = std::panic::catch_unwind(std::panic::AssertUnwindSafe(move || s2.get_block(&h2).map(|x| x.data().as_slice().to_vec())));
@@ -2211,6 +2216,10 @@ impl Exec {
         if self.sc.prop == "C07" && !self.sc.header_stage {
             self.check_epochs();
         }
+        // the captured snapshots are asked a last time BEFORE the digest below: the digest asks the live
+        // store's part accessors about deleted blocks too (a question no code path of the node asks),
+        // which leaves negative answers in the shared caches that a later snapshot read would pick up
+        self.stale_reads("final");
         if self.sc.prop == "C14" {
             let d = self.answers_digest();
             self.res.extra = Some(d);
@@ -2236,7 +2245,6 @@ impl Exec {
                 .collect();
             self.res.extra = Some(serde_json::json!({ "c14": filtered, "freeze_windows": self.freeze_windows, "eff_ops": self.eff_ops }));
         }
-        self.stale_reads("final");
         let snaps = std::mem::take(&mut self.snaps);
         for s in snaps {
             if let Err((class, d)) = compare_state(&self.w, &*s, Some(&*s)) {
